@@ -97,6 +97,29 @@ def build_align_case(rng, g, axis, selkind, export, source, theta, phi, gap):
             'family': 'align'}
 
 
+def build_flat_case(rng, g, axis, phi, gap, rod=False):
+    """a structure lying EXACTLY in a plane z = const (or a rod exactly along a direction of that plane): the chosen
+    principal direction then has a z-component of exactly 0.0 - the boundary of the spherical-angle extraction"""
+    for _ in range(200):
+        n = rng.choice([8, 12, 20])
+        u = g.normal(size=n) * 3.0 * math.sqrt(gap) * 1.3
+        v = g.normal(size=n) * (0.0 if rod else 3.0)
+        u, v = u - u.mean(), v - v.mean()
+        X = np.stack([u * math.cos(phi) - v * math.sin(phi), u * math.sin(phi) + v * math.cos(phi), np.zeros(n)], axis=1)
+        X = np.round(X + np.array([g.uniform(-20, 20), g.uniform(-20, 20), 0.0]), 3)
+        X[:, 2] = round(float(g.uniform(-5, 5)), 3) if rng.random() < 0.5 else 0.0
+        w = np.linalg.eigvalsh(np.cov((X - X.mean(0)).T))
+        if w[1] <= 1e-12 or w[2] / w[1] >= 1.05:
+            break
+    lines, mask = [], []
+    for k, x in enumerate(X):
+        lines.append(atom_line(k + 1, rng.choice([' CA ', ' C  ', ' N  ']), 'ALA', rng.choice(['A', 'B']), 1 + k // 3, x[0], x[1], x[2], temp=round(rng.uniform(0, 60), 2)))
+        mask.append(True)
+    return {'op': 'align', 'func': 'align', 'lines': lines, 'mask': mask, 'axis': axis, 'kwargs': {}, 'selkind': 'all',
+            'export': False, 'source': 'object', 'least': False, 'theta': math.pi / 2, 'phi': phi, 'gap': float(w[2] / w[1]) if w[1] > 1e-12 else 1e9,
+            'family': 'align-flat'}
+
+
 def contact_mask(X, chains, cutoff):
     X = np.asarray(X, float)
     A = [i for i, c in enumerate(chains) if c == 'A']; B = [i for i, c in enumerate(chains) if c == 'B']
@@ -169,6 +192,10 @@ def cases(ctx):
         theta, phi = math.acos(rng.uniform(-1, 1)), rng.uniform(-math.pi, math.pi)
         out.append(build_align_case(rng, g, rng.choice('xyz'), rng.choice(['all', 'chain', 'name']), False, 'object', theta, phi,
                                     rng.choice([1.051, 1.06, 1.5, 10.0])))
+    # structures lying exactly in a plane z = const, and rods exactly in that plane (principal direction with z-component exactly 0)
+    for kf in range(ctx.scale(6, 60)):
+        for axis in ('x', 'y', 'z'):
+            out.append(build_flat_case(rng, g, axis, rng.uniform(-math.pi, math.pi), rng.choice([1.5, 4.0]), rod=(kf % 3 == 0)))
     out.append({'op': 'align_axis', 'axis': 'w', 'lines': build_align_case(rng, g, 'x', 'all', False, 'object', 1.0, 1.0, 3.0)['lines'], 'family': 'bad-axis'})
     return out
 
@@ -182,6 +209,9 @@ def search_cases(ctx):
         for axis in ('x', 'y', 'z'):
             theta, phi = math.acos(rng.uniform(-0.95, 0.95)), rng.uniform(-math.pi, math.pi)
             out.append(build_align_case(rng, g, axis, 'all', False, 'object', theta, phi, rng.choice([1.2, 4.0])))
+    for k in range(ctx.scale(12, 60)):
+        for axis in ('x', 'y', 'z'):
+            out.append(build_flat_case(rng, g, axis, rng.uniform(-math.pi, math.pi), rng.choice([1.5, 4.0]), rod=(k % 3 == 0)))
     return out
 
 
